@@ -95,6 +95,29 @@ def run_case(case):
         interpolation_info={v: gridspecs[v] for v in ct},
         indexer_infos=[IndexerInfo(axis_names=sp, name="state_indexer", out_name="state_index")] if sp else [],
     )
+    # process history: right before the judged representation, one for the same space with the
+    # grid KINDS swapped (same start/stop/n, same names, same prefix) is built and evaluated
+    # once; nothing of it is judged (anything memoised without the grid kind collides)
+    try:
+        sw = {v: ({**spec[v], "kind": "log"} if spec[v]["kind"] == "lin" and spec[v]["start"] > 0 else ({**spec[v], "kind": "lin"} if spec[v]["kind"] == "log" else spec[v])) for v in ct}
+        if ct and any(sw[v]["kind"] != spec[v]["kind"] for v in ct):
+            gs_sw = {**gridspecs, **{v: dsl.make_grid(sw[v]) for v in ct}}
+            info_sw = SpaceInfo(axis_names=info.axis_names, lookup_info=info.lookup_info,
+                                interpolation_info={v: gs_sw[v] for v in ct}, indexer_infos=info.indexer_infos)
+            f_sw = get_function_representation(info_sw, "vf_arr", input_prefix=prefix)
+            kw_sw = {"vf_arr": jarr}
+            if sp:
+                kw_sw["state_indexer"] = jnp.asarray(indexer)
+            for v in sp:
+                kw_sw[prefix + v] = int(np.argwhere(indexer >= 0)[0][sp.index(v)])
+            for v in dd:
+                kw_sw[prefix + v] = 0
+            for v in ct:
+                kw_sw[prefix + v] = float(dsl.ref_grid(sw[v])[0])
+            f_sw(**kw_sw)
+            add("swapped_kind_siblings_built")
+    except Exception:  # noqa: BLE001 - the sibling is not under test
+        add("swapped_kind_sibling_failed")
     try:
         f = get_function_representation(info, "vf_arr", input_prefix=prefix)
     except Exception as e:  # noqa: BLE001
